@@ -13,6 +13,12 @@ def handle : Handler := fun op a =>
   | "C01.frame" => some do
       let ps ← getPixels a "pixels"
       return Json.mkObj [("sorted", jPixels (sortByKey ps))]
+  | "C01.checked_write" => some do
+      let signed ← getBool a "signed"
+      let bits ← getNat a "bits"
+      let vs ← fld a "values" >>= listOf intOf
+      return Json.mkObj [("stored", jOpt (jList jInt) (checkedWrite signed bits vs)),
+        ("unchecked", jList jInt (vs.map (clipInt signed bits)))]
   | "C01.json_literal" => some do
       -- variant oracle of known finding D16: does the string parse as a JSON document, and to what
       let s ← getStr a "s"
